@@ -389,3 +389,65 @@ def check_no_cutoff(ctx, rid, only=None):
             ctx.ob(rid, f'cutoff:{f.name}', _loc(f, f.node), f'{f.name} has no depth parameter', False, f'parameter(s) {params} track the nesting depth')
         else:
             ctx.ob(rid, f'cutoff:{f.name}', _loc(f, f.node), f'{f.name} processes every token list regardless of size or depth', True)
+    check_recurse_driver(ctx, rid)
+
+
+def check_recurse_driver(ctx, rid):
+    """utils.recurse is the driver behind every @recurse grouping pass (group_where, group_functions, group_identifier,
+    group_over, group_order, group_aliased, group_comments, align_comments ...): the closure it returns must visit every
+    sub-group (only the `isinstance(sgroup, cls)` filter may skip one) and must apply the pass to every list it visits."""
+    repo = ctx.repo
+    dec = repo.funcs.get('sqlparse.utils.recurse')
+    ctx.need(dec is not None, 'sqlparse.utils.recurse not found')
+    # follow `return <nested def>` down to the innermost closure
+    chain, f = [dec], dec
+    while True:
+        nxt = None
+        for n in own_nodes(f.node):
+            if isinstance(n, ast.Return) and isinstance(n.value, ast.Name) and n.value.id in f.nested:
+                nxt = f.nested[n.value.id]
+        if nxt is None:
+            break
+        chain.append(nxt)
+        f = nxt
+    ctx.need(len(chain) >= 2, 'recurse: no returned closure found')
+    inner = chain[-1]
+    ctx.need(inner.params, 'recurse: the returned closure takes no token list')
+    P = inner.params[0]
+    wrapped = {p for c in chain[:-1] for p in c.params}          # the decorated function (`f`) and `cls`
+    gd = Guards(inner.node)
+    loops = [n for n in own_nodes(inner.node) if isinstance(n, (ast.For, ast.comprehension)) and
+             any(isinstance(c, ast.Call) and isinstance(c.func, ast.Attribute) and c.func.attr == 'get_sublists' for c in ast.walk(n.iter))]
+    selfcalls = [n for n in own_nodes(inner.node) if isinstance(n, ast.Call) and is_name(n.func, inner.node.name)]
+    applies = [n for n in own_nodes(inner.node) if isinstance(n, ast.Call) and isinstance(n.func, ast.Name) and n.func.id in wrapped
+               and n.args and is_name(n.args[0], P)]
+    ctx.need(loops and selfcalls and applies, f'recurse: closure {inner.qname} has no loop over get_sublists() / no recursive call / no application of the pass')
+    raises = [n for n in own_nodes(inner.node) if isinstance(n, ast.Raise)]
+
+    def nonfilter(facts):
+        return [f'`{e}` is {p}' for e, p in facts if not (e.startswith('isinstance(') and p is False) and e[0] != '|']
+    for lp in loops:
+        extra = nonfilter(gd.facts(lp)) if isinstance(lp, ast.For) else []
+        ctx.ob(rid, 'recurse:loop', _loc(inner, lp if isinstance(lp, ast.For) else lp.iter), 'the @recurse driver iterates over all sub-groups of every list it visits', not extra,
+               f'the loop over get_sublists() only runs when {extra}: beyond that the @recurse passes (Where, Function, Identifier, Over, '
+               'ORDER, alias and comment grouping) silently stop descending and deeper clauses stay ungrouped')
+    for c in selfcalls:
+        extra = nonfilter(gd.facts(c))
+        ctx.ob(rid, 'recurse:descend', _loc(inner, c), 'the @recurse driver descends into every sub-group not excluded by its class filter', not extra,
+               f'the recursive call is additionally guarded by {extra}: sub-groups beyond that are never visited')
+    for c in applies:
+        extra = nonfilter(gd.facts(c)) + ['inside a loop' for _ in [0] if gd.loops.get(id(c))]
+        ctx.ob(rid, 'recurse:apply', _loc(inner, c), 'the @recurse driver applies the pass to every list it visits', not extra,
+               f'the pass is only applied when {extra}')
+    ctx.ob(rid, 'recurse:no-raise', _loc(inner, raises[0] if raises else inner.node), 'the @recurse driver has no failure exit of its own', not raises,
+           'the driver raises: grouping of a valid statement depends on its size/depth')
+    # get_sublists yields every group child
+    gs = repo.funcs.get('sqlparse.sql.TokenList.get_sublists')
+    ctx.need(gs is not None, 'TokenList.get_sublists not found')
+    g2 = Guards(gs.node)
+    ys = [n for n in own_nodes(gs.node) if isinstance(n, (ast.Yield, ast.YieldFrom))]
+    ctx.need(ys, 'get_sublists does not yield')
+    for y in ys:
+        extra = [f'`{e}` is {p}' for e, p in g2.facts(y) if not (e.endswith('.is_group') and p is True)]
+        ctx.ob(rid, 'get_sublists', _loc(gs, y), 'get_sublists yields every child that is a group', not extra,
+               f'a group child is only yielded when {extra}')
